@@ -135,9 +135,9 @@ theorem build_post (env : Env) (ops : List OpIn) (paths : List (B × PathItem IR
 
 /-! ## from the builder's result to the document -/
 
-theorem generate_ok {v : Version} {strict : Bool} {V : Option (Doc Schema → Bool)} {env : Env} {ops : List OpIn}
-    {d : Doc Schema} (h : generate v strict V env ops = .ok d) :
-    ∃ paths comps, build env ops = .ok (paths, comps) ∧ project v paths comps = .ok d := by
+theorem generate_ok {cfg : ApiCfg} {v : Version} {strict : Bool} {V : Option (Doc Schema → Bool)} {env : Env} {ops : List OpIn}
+    {d : Doc Schema} (h : generate cfg v strict V env ops = .ok d) :
+    ∃ paths comps, build env ops = .ok (paths, comps) ∧ project cfg strict v paths comps = .ok d := by
   unfold generate at h
   split at h
   · cases h
@@ -154,22 +154,17 @@ theorem generate_ok {v : Version} {strict : Bool} {V : Option (Doc Schema → Bo
         · simp only [Except.ok.injEq] at h; subst h; exact hp
         · cases h
 
-/-- the document `project` produces -/
-def projDoc (v : Version) (paths : List (B × PathItem IR)) (schemas : List (B × IR)) : Doc Schema :=
-  { openapi := match v with | .v30 => s "3.0.4" | .v31 => s "3.1.2"
-    dialect := match v with | .v30 => [] | .v31 => dialect31
-    servers := match v with | .v30 => [] | .v31 => [s "/"]
-    paths := paths.map fun pi => (pi.1, sortByKey (pi.2.map fun mo => (mo.1, mo.2.map (projSchema v))))
-    schemas := schemas.map fun ks => (ks.1, projSchema v ks.2) }
-
-theorem project_ok {v : Version} {paths : List (B × PathItem IR)} {comps : List (B × IR)} {d : Doc Schema}
-    (h : project v paths comps = .ok d) : d = projDoc v paths comps ∧ ¬ (v = .v30 ∧ paths.isEmpty = true) := by
+theorem project_ok {cfg : ApiCfg} {strict : Bool} {v : Version} {paths : List (B × PathItem IR)} {comps : List (B × IR)}
+    {d : Doc Schema} (h : project cfg strict v paths comps = .ok d) :
+    d = applyCfg cfg v (projDoc v paths comps) ∧ ¬ (v = .v30 ∧ paths.isEmpty = true) := by
   unfold project at h
   split at h
   · cases h
   next hne =>
-    simp only [Except.ok.injEq] at h
-    exact ⟨h.symm, hne⟩
+    split at h
+    · cases h
+    · simp only [Except.ok.injEq] at h
+      exact ⟨h.symm, hne⟩
 
 theorem mem_schemas_map {f : IR → Schema} {o : Operation IR} {x : Schema} (hx : x ∈ (o.map f).schemas) :
     ∃ y ∈ o.schemas, x = f y := by
